@@ -97,7 +97,7 @@ CHECKS = {
                 text="for every model document: seal->verify in memory / after text round trip / sealed twice / after every cosmetic respelling; "
                      "EVERY single-site content mutation (leaf replaced by same- and other-type value, key renamed, node deleted/duplicated/"
                      "moved/re-nested, META field, envelope name, frontmatter, each hash digit) must verify INVALID; unsealed -> NO_SEAL; same "
-                     "through `octave seal` / `octave validate --verify-seal --require-seal`; every single comment place (incl. footer comments); cosmetic respellings of the sealed FILE through the CLI too; leaf type flips inside lists / inline maps, nodes appended after the SEAL section, verbatim documents through `octave seal`",
+                     "through `octave seal` / `octave validate --verify-seal --require-seal`; every single comment place (incl. footer comments); cosmetic respellings of the sealed FILE through the CLI too; leaf type flips inside lists / inline maps, nodes appended after the SEAL section, verbatim documents through `octave seal`; wave 5: quoted strings spelling backslash + every letter / digit (lenient escapes) sealed to a file through the CLI (file verifies, re-sealing reproduces it, value unchanged); `octave seal f -o f` on an already sealed file killed at EVERY libc call boundary and with every call failing once (EIO, ENOSPC) under the interposer: the file is its complete previous bytes or the complete new sealed text",
                 note="comment edits are not generated as tampering (not among the sealed content kinds)",
                 tech="exhaustive enumeration of single-site mutations and respellings per document"),
     "C16": dict(level="fault_enumeration", engine="E5 libc interposer (vt/fsshim)",
@@ -105,7 +105,7 @@ CHECKS = {
                      "EVERY file-system call boundary of the fault-free run is taken as kill point, power-loss point (unsynced data lost, "
                      "un-fsynced rename may or may not persist) and injected failure for 5 errnos, plus second deviations (fault then fault/"
                      "kill) as a deviation tree; oracle from the supervising process: target is complete old or complete new bytes, errors "
-                     "leave bytes+mode unchanged and no temp sibling, success implies sha256(file)==canonical_hash; scenarios include files that are canonical apart from CRLF / bare-CR line ends; an external modification injected before every call boundary up to the install step (shim mode EDIT); and a second fault layer in-process: a transient OSError (EINTR, EIO, ENOSPC) raised once at the j-th call of every OS-facing Python function of the write path; builtin META case-fold between emission and write; text that cannot be encoded as UTF-8; short writes (every write() of the fault-free run stores half its buffer); modes sharing bits with common umasks",
+                     "leave bytes+mode unchanged and no temp sibling, success implies sha256(file)==canonical_hash; scenarios include files that are canonical apart from CRLF / bare-CR line ends; an external modification injected before every call boundary up to the install step (shim mode EDIT); and a second fault layer in-process: a transient OSError (EINTR, EIO, ENOSPC) raised once at the j-th call of every OS-facing Python function of the write path; builtin META case-fold between emission and write; text that cannot be encoded as UTF-8; short writes (every write() of the fault-free run stores half its buffer); modes sharing bits with common umasks; wave 5: the interruption is another write - two unconditional writers (tool/tool, file_ops/file_ops, mixed) as two processes, every interleaving of their visible libc calls, with automatic escalation to every-call granularity when they name the same temp file",
                 note="the interposer sees every libc file call of the child; kernel-internal non-atomicity outside the model",
                 tech="exhaustive fault/crash-point enumeration (deviation-bounded, 2 deviations) on the implementation"),
     "C17": dict(level="model_checking", engine="E5 libc interposer stepper + E7 virtual asyncio loop",
@@ -175,7 +175,7 @@ m = {
         {"name": "E3 token alphabets", "path": "vt/tokens.py", "serves_properties": ["C01", "C07", "C20"], "kind_free_text": "token-sequence spaces"},
         {"name": "E4 independent oracles", "path": "vt/oracles/", "serves_properties": ["C03", "C08", "C12", "C13", "C14", "C18"],
          "kind_free_text": "strict-profile recogniser, three-valued constraint semantics, GBNF reader + derivation enumerator, leaf extraction, chunker"},
-        {"name": "E5 libc interposer", "path": "vt/fsshim/", "serves_properties": ["C16", "C17", "C19"],
+        {"name": "E5 libc interposer", "path": "vt/fsshim/", "serves_properties": ["C15", "C16", "C17", "C19"],
          "kind_free_text": "LD_PRELOAD shim over libc file calls: log / inject errno at call k (two fault points) / _exit at call k / "
                            "step-by-step scheduling of two processes; fork-per-execution controller"},
         {"name": "E6 process matrix", "path": "vt/env/procmatrix.py", "serves_properties": ["C06"],
